@@ -930,8 +930,11 @@ pub fn write_evidence<P: Prop>(p: &P, tier: Tier, seed: u64, parts: &[Part], wal
     let id = p.id();
     let sub: u64 = parts.iter().map(|x| x.sub_evals).sum();
     let cases: u64 = parts.iter().map(|x| x.evaluations).sum();
-    let evaluations: u64 = if sub > 0 { sub } else { cases };
-    let distinct: u64 = if sub > 0 {
+    // fault enumeration (C13): a case is a history, what is evaluated are its kills. Elsewhere sub-executions
+    // (injected failures of C12 / C18) come on top of the cases.
+    let sub_only = p.level() == "fault_enumeration";
+    let evaluations: u64 = if sub_only && sub > 0 { sub } else { cases + sub };
+    let distinct: u64 = if sub_only && sub > 0 {
         parts.iter().map(|x| x.sub_nontrivial).max().unwrap_or(0)
     } else {
         parts.iter().map(|x| x.distinct_nontrivial).max().unwrap_or(0)
